@@ -10,6 +10,7 @@ mod envelope;
 mod framing;
 mod notified;
 mod server;
+mod transport;
 mod targets;
 mod util;
 mod wire;
@@ -62,6 +63,42 @@ fn main() {
         "chain" => cmd_chain(&args, seed, n, &out, &summary),
         "server" => cmd_server(&args, seed, n, &out, &summary),
         "classify" => cmd_classify(&args, seed, n, &out, &summary),
+        "transport" => {
+            use transport::*;
+            let mut r = Rng::new(seed ^ 0x7a45);
+            let mut scenarios: Vec<Scenario> = Vec::new();
+            if let Some(p) = arg_val(&args, "--replay") {
+                for v in read_lines(&p) {
+                    scenarios.push(Scenario::from_json(&v));
+                }
+            } else {
+                let mode = arg_val(&args, "--mode").unwrap_or_else(|| "plain".into());
+                for i in 0..n {
+                    let mut rr = r.fork();
+                    let rt = if i % 2 == 0 { "tokio" } else { "smol" };
+                    let sid = format!("x{seed}-{i}");
+                    scenarios.push(match mode.as_str() {
+                        "plain" => gen_plain(&mut rr, sid, rt, false),
+                        "big" => gen_plain(&mut rr, sid, rt, true),
+                        "cancel" => gen_cancel(&mut rr, sid, rt),
+                        o => panic!("unknown mode {o}"),
+                    });
+                }
+            }
+            util::log_open(&out);
+            let mut stats = Stats { scenarios: 0, messages: 0, cancelled: 0 };
+            let dump = arg_val(&args, "--dump-scenarios");
+            let mut dumpw = dump.map(|p| std::io::BufWriter::new(std::fs::File::create(p).unwrap()));
+            for sc in &scenarios {
+                if let Some(w) = dumpw.as_mut() {
+                    use std::io::Write;
+                    writeln!(w, "{}", sc.to_json()).unwrap();
+                }
+                run(sc, &mut stats);
+            }
+            let lines = util::log_close();
+            util::write_json(&summary, &json!({"scenarios": stats.scenarios, "messages": stats.messages, "cancelled": stats.cancelled, "events": lines}));
+        }
         "notified" => {
             use notified::*;
             let mut r = Rng::new(seed ^ 0x2071);
